@@ -47,7 +47,8 @@ for it in range(N):
         top = Strategy("top", stack(["a", "b", "c"]), children=[sec(x) for x in "abc"] if (cfg["eager"] or cfg["mult"] != 1.0) else None)
     extra = {}
     if cfg["bidoffer"]:
-        extra["bidoffer"] = pd.DataFrame(0.2 + rs.rand(n, len(TICK)) * 0.3, index=idx, columns=TICK)
+        quoted = [x for x in TICK if rs.rand() < 0.8] or TICK[:1]      # tickers without a quote trade at the mid price: no spread
+        extra["bidoffer"] = pd.DataFrame(0.2 + rs.rand(n, len(quoted)) * 0.3, index=idx, columns=quoted)
     try:
         t = bt.Backtest(top, data, integer_positions=cfg["intpos"], additional_data=extra or None, progress_bar=False, commissions=lambda q, p: abs(q) * 0.001)
         res = bt.run(t)
@@ -101,6 +102,9 @@ for it in range(N):
                     execp = outl.loc[d_] / (dpos.loc[d_] * mult)
                     got = tx["price"].loc[(d_, nm)]
                     if not close([got], [execp], 1e-7): bad("transaction-price-is-the-execution-price", ticker=nm, date=str(d_), got=float(got), want=float(execp), multiplier=mult, bidoffer=cfg["bidoffer"], holders=len(same)); break
+    if cfg["bidoffer"]:
+        for m in secs:
+            if m.name not in extra["bidoffer"].columns and float(np.abs(m.bidoffers_paid.to_numpy()).sum()) != 0.0: bad("no-spread-is-paid-on-a-ticker-without-a-quote", ticker=m.name, config=cfg)
     # 5. turnover and Herfindahl
     o = pd.DataFrame({nm: sum(m.outlays for m in secs if m.name == nm) for nm in sorted({m.name for m in secs})})
     so = s.outlays
